@@ -202,6 +202,7 @@ class ConfigParser(object):
     self._delegate = parser_delegate
     self._within_block = False
     self._statements_queue = collections.deque()
+    self._deferred_error = None
     self._advance_one_token()
 
   def __iter__(self):
@@ -226,6 +227,9 @@ class ConfigParser(object):
     """
     if self._statements_queue:
       return self._statements_queue.popleft()
+
+    if self._deferred_error is not None:
+      raise self._deferred_error
 
     self._skip_whitespace_and_comments()
     if self._current_token.type == tokenize.ENDMARKER:
@@ -262,7 +266,13 @@ class ConfigParser(object):
       self._raise_syntax_error('Expected newline.')
 
     if self._current_token.type != tokenize.ENDMARKER:
-      self._advance_one_token()
+      try:
+        self._advance_one_token()
+      except (SyntaxError, tokenize.TokenError) as e:
+        # The tokenizer rejected the beginning of the *next* statement. This
+        # statement is complete, so report the error when the next one is asked
+        # for instead of dropping this one.
+        self._deferred_error = e
 
     return statement
 
